@@ -1892,6 +1892,10 @@ class GroupBy:
         ilocs = ilocs[keep]
 
         if keep_input_index:
+            if self._sort:
+                # original row order; sorting by index label afterwards would
+                # reorder the rows of a group when the index is not increasing
+                ilocs = np.sort(ilocs)
             if common_index is None:
                 common_index = pd.RangeIndex(len(value_list[0]))
             out_index = common_index[ilocs]
@@ -1921,7 +1925,7 @@ class GroupBy:
             result, values=values, n_values=len(value_names)
         )
 
-        if self._sort:
+        if self._sort and not keep_input_index:
             result.sort_index(inplace=True)
 
         return result
